@@ -21,23 +21,23 @@ Section C07.
 
   (** A freshly constructed VMF satisfies the invariant ... *)
   Theorem c07_index_inv_init : Inv fold init.
-  Proof. exact (init_inv fold fold_nil fold_cn fold_tn fold_ws). Qed.
+  Proof. apply init_inv; assumption. Qed.
 
   (** ... so does the result of VMF.parse for every world block and every list of entity blocks ... *)
   Theorem c07_index_inv_parse : ∀ spawn_keys ent_keys, Inv fold (parse_init fold spawn_keys ent_keys).
-  Proof. exact (parse_init_inv fold fold_nil fold_cn fold_tn fold_ws). Qed.
+  Proof. apply parse_init_inv; assumption. Qed.
 
   (** ... every single operation preserves it (whatever its arguments, whether it raises or not) ... *)
   Theorem c07_index_inv_step : ∀ o st, Inv fold st → Inv fold (step fold o st).1.
-  Proof. exact (step_inv fold fold_nil fold_cn fold_tn fold_ws). Qed.
+  Proof. apply step_inv; assumption. Qed.
 
   (** ... hence it holds after EVERY finite sequence of operations on one map ... *)
   Theorem c07_index_inv_reachable : ∀ ops, Inv fold (run fold ops init).
-  Proof. intros ops. apply (run_inv fold fold_nil fold_cn fold_tn fold_ws), c07_index_inv_init. Qed.
+  Proof. intros ops. apply run_inv; try assumption. apply c07_index_inv_init. Qed.
 
   (** ... and for every history over any number of maps with entities copied between them and maps parsed. *)
   Theorem c07_index_inv_worlds : ∀ ops, Forall (Inv fold) (wrun fold ops []).
-  Proof. intros ops. apply (wrun_inv fold fold_nil fold_cn fold_tn fold_ws). constructor. Qed.
+  Proof. intros ops. apply wrun_inv; try assumption. constructor. Qed.
 
   (** What a reader of the indexes gets in a state satisfying the invariant: exactly the scan. *)
   Theorem c07_by_class_is_scan : ∀ st k e, Inv fold st →
